@@ -37,7 +37,7 @@ type c13Witness struct {
 func init() {
 	core.Register(&core.Check{
 		ID:   "C13",
-		Rule: "one operation with defaulted query (integer, string, array with explode unset/true/false), header (string, array) and cookie parameters plus undefaulted ones, and a JSON body schema with defaults at depth<=3 (plain, nested object, default object with nested defaults, array items, allOf, oneOf/anyOf branches incl. defaults on objects inside arrays below a branch, readOnly default); all 64 presence subsets of the defaulted parameters x 26 body variants (valid, partially filled, branch-selecting, invalid, syntactically broken, absent, wrong content type, Content-Type carrying a charset parameter) x options (default, SkipSettingDefaults, MultiError) x auth callback (none, reads body and accepts, reads body and rejects) x request with/without GetBody. After every ValidateRequest: the body is re-read and compared (bytes when defaults are skipped or validation failed, JSON-equal to the reference default-merge otherwise), ContentLength/GetBody are cross-checked, untouched parameters must be unchanged, each defaulted parameter must decode to its default from the forwarded request, the forwarded request is validated a second time and must pass and change nothing. Distinct = full case tuple; non-trivial = a non-empty body or at least one applicable default. With explode unset the defaulted header X-D is declared on the path item and the operation declares a query parameter of the same name. Structured defaults (shard 0): one parameter per document whose default is an object or an array, in query (form explode unset/true/false, deepObject, spaceDelimited, pipeDelimited), header (simple, explode unset/true/false) and cookie, and parameters described by application/json content (object, integer, string, array; query, header, cookie): the absent parameter must read back from the forwarded request as exactly its default (a control run first sends the default explicitly; a serialization the decoders do not read back gives no verdict and is listed under structured_defaults as serialization-not-read-back), the forwarded request validates again unchanged, and with SkipSettingDefaults nothing changes.",
+		Rule: "one operation with defaulted query (integer, string, array with explode unset/true/false), header (string, array) and cookie parameters plus undefaulted ones, and a JSON body schema with defaults at depth<=3 (plain, nested object, default object with nested defaults, array items, allOf, oneOf/anyOf branches incl. defaults on objects inside arrays below a branch, readOnly default); all 64 presence subsets of the defaulted parameters x 26 body variants (valid, partially filled, branch-selecting, invalid, syntactically broken, absent, wrong content type, Content-Type carrying a charset parameter) x options (default, SkipSettingDefaults, MultiError) x auth callback (none, reads body and accepts, reads body and rejects) x request with/without GetBody. After every ValidateRequest: the body is re-read and compared (bytes when defaults are skipped or validation failed, JSON-equal to the reference default-merge otherwise), ContentLength/GetBody are cross-checked, untouched parameters must be unchanged, each defaulted parameter must decode to its default from the forwarded request, the forwarded request is validated a second time and must pass and change nothing. Distinct = full case tuple; non-trivial = a non-empty body or at least one applicable default. With explode unset the defaulted header X-D is declared on the path item and the operation declares a query parameter of the same name. Structured defaults (shard 0): one parameter per document whose default is an object or an array, in query (form explode unset/true/false, deepObject, spaceDelimited, pipeDelimited), header (simple, explode unset/true/false) and cookie, and parameters described by application/json content (object, integer, string, array; query, header, cookie): the absent parameter must read back from the forwarded request as exactly its default (a control run first sends the default explicitly; a serialization the decoders do not read back gives no verdict and is listed under structured_defaults as serialization-not-read-back), the forwarded request validates again unchanged, and with SkipSettingDefaults nothing changes. A fifth body schema is a list at the top level (defaults inside items and below). Shared component: six parameters referring to one component schema with an object / list default, both declaration orders, the default edited in the kept document.",
 		Assumptions: []string{
 			"reference default merge: an absent property with a schema default takes a copy of it (not for readOnly properties in requests), recursively, per array item, through allOf, and only from the oneOf/anyOf branch that matches",
 			"explicit nulls on defaulted properties are kept out of the judged set (the library overwrites them; the statement speaks of absent properties)",
